@@ -14,6 +14,9 @@ CONSTANTS
   Pres <- T_Pres
   PreSpecSrcs <- T_PreSpecSrcs
   AliasAttrs = FALSE
+  OptSpecSrcs <- Q_OptSpecSrcs
+  OptMaxW = 16
+  DropBoundary = FALSE
   ChainSrcs <- Q_ChainSrcs
   ChainPairs <- Q_ChainPairs
   ChainInexact = FALSE
@@ -30,6 +33,7 @@ INVARIANT ImplTimeAxis
 INVARIANT ImplFreqAxis
 INVARIANT ImplChainAxis
 INVARIANT ImplSourceTruthful
+INVARIANT ImplSpecStartsAtSource
 INVARIANT ImplStartsAtSource
 INVARIANT ResampleDriftBounded
 INVARIANT LawFloor
